@@ -131,3 +131,68 @@ def make(harness, I, S, extra=None):
         out["predicted"] = pred
         return out
     return build
+
+
+def make_obs(I, S):
+    """State.get_observation counterexamples"""
+    sig = S.sig
+    if sig is None or sig.symbolic:
+        return None
+
+    def build(m):
+        f = S.extra["res"].fields
+        out = {"harness": "state_get_observation", "scenario": scenario_json(m, sig), "tensor": tensor_json(m, sig, S.old["T"]),
+               "action": action_json(m, S.act), "fully_obs": bool(mev(m, S.extra["fully"])), "draws": [],
+               "result": {k: bool(mev(m, bval(f[k]))) for k in ("success", "connection_error", "permission_error", "undefined_error")}}
+        out["result"]["value"] = mev(m, rval(f["value"]))
+        for k in ("discovered", "newly_discovered"):
+            d = f.get(k)
+            out["result"][k] = {f"{a[0]},{a[1]}": bool(mev(m, bval(v))) for a, v in d.d.items()} if isinstance(d, PyDict) else {}
+        pred = {}
+        obs = S.result
+        if isinstance(obs, Obj) and "tensor" in obs.fields:
+            O = obs.fields["tensor"].cell.content
+            W = width(m, sig)
+            pred["obs_tensor"] = [[mev(m, z3.Select(z3.Select(O, z3.IntVal(i)), z3.IntVal(c))) for c in range(W)]
+                                  for i in range(sig.N + 1)]
+        pred["exception"] = getattr(S, "exc", None).kind if getattr(S, "exc", None) else None
+        out["predicted"] = pred
+        return out
+    return build
+
+
+def make_observe(I, S):
+    sig = S.sig
+    if sig is None or sig.symbolic:
+        return None
+
+    def build(m):
+        out = {"harness": "hv_observe", "scenario": scenario_json(m, sig), "vector": vector_json(m, sig, S.old["vec"]),
+               "switches": {k: bool(mev(m, v)) for k, v in S.extra["sw"].items()}, "draws": []}
+        pred = {}
+        if isinstance(S.result, NpArr):
+            pred["obs_vector"] = vector_json(m, sig, S.result.content())
+        out["predicted"] = pred
+        return out
+    return build
+
+
+def make_env(I, S, limit):
+    """NASimEnv.step / generative_step counterexamples: inputs only; the replay evaluates the env-level clauses
+    natively on the real environment (the engine's outputs at these call sites are contract-havoced symbols)"""
+    sig = S.sig
+    if sig is None or sig.symbolic:
+        return None
+
+    def build(m):
+        env = S.a["self"]
+        cur = env.fields["current_state"] if "state" not in S.a or S.a.get("state") is None else S.a["state"]
+        T = S.old["env"]["current_T"] if "env" in S.old and ("state" not in S.a) else S.old.get("T", S.old["env"]["current_T"])
+        out = {"harness": "env_step", "scenario": scenario_json(m, sig), "tensor": tensor_json(m, sig, T),
+               "action": action_json(m, S.act) if getattr(S, "act", None) is not None else {"kind": "NoOp"},
+               "steps0": mev(m, ival(S.old["env"]["steps"])),
+               "step_limit": mev(m, sig.step_limit) if limit else None,
+               "modes": {k: bool(mev(m, z3.Bool(k))) for k in ("fully_obs", "flat_obs")},
+               "draws": [mev(m, d[1]) for d in I.ctx.draws if d[0] == "rand"] or [0.5], "predicted": {}}
+        return out
+    return build
